@@ -11,6 +11,7 @@ P = "param.parameterized."
 
 
 def run(ctx):
+    ctx.rule("R17.l", "Parameterized.__getstate__, interpreted abstractly, saves every ordinary attribute and the complete per-instance value store -- entries that are still the class default object included (that entry pins a constant to the instance; a copy without it follows later class-level sets)", floor=1)
     ctx.rule("R17.a", "__setstate__ rebuilds every method-caller watcher as _m_caller(self, name), i.e. it assumes the object HOLDING the watcher owns the method; "
                       "every installer of such a caller must therefore register _m_caller(X, ...) on X itself", floor=1)
     ctx.rule("R17.e", "__setstate__ re-creates the Watcher tuples of a copy, so (i) it rebinds a bound-method callback by name only when that method's owner IS the watched instance "
@@ -264,6 +265,9 @@ def run(ctx):
 
     from checks.c19 import hash_state_agreement
     hash_state_agreement(ctx, "R17.k")
+
+    from checks.shared import getstate_complete
+    getstate_complete(ctx, "R17.l")
 
     # ---------------------------------------------------------------- R17.j
     hooks_ = [g for g in ctx.repo.all_funcs() if g.name in ("__deepcopy__", "__copy__") and g.cls is not None]
